@@ -156,7 +156,16 @@ def _segments(e):
         a, b = _segments(e.left), _segments(e.right)
         return None if a is None or b is None else a + b
     if isinstance(e, (ast.List, ast.Tuple)):
-        return [('star', norm(x.value)) if isinstance(x, ast.Starred) else ('elem', norm(x)) for x in e.elts]
+        out = []
+        for x in e.elts:
+            if isinstance(x, ast.Starred):
+                v = x.value
+                if isinstance(v, ast.Call) and isinstance(v.func, ast.Name) and v.func.id in ('list', 'tuple') and len(v.args) == 1:
+                    v = v.args[0]
+                out.append(('star', norm(v)))
+            else:
+                out.append(('elem', norm(x)))
+        return out
     if isinstance(e, ast.Call) and isinstance(e.func, ast.Name) and e.func.id in ('list', 'tuple') and len(e.args) == 1:
         return [('star', norm(e.args[0]))]
     if isinstance(e, ast.Name):
